@@ -16,6 +16,7 @@ Three kinds of children execute it, each forked from the pristine zygote:
 * ``serial``    -- the operations in some other serial order (only to explain a mismatch
   by order-dependence of the *sequential* semantics before it is called a violation).
 """
+import os
 import random
 import sys
 from typing import Any, Dict, List, Optional, Sequence
@@ -85,10 +86,14 @@ def make_plan(seed: int, tier: str = "quick") -> dict:
     static = [g for g in groups if not g.startswith("gen")]
     generated = [g for g in groups if g.startswith("gen")]
 
+    only = os.environ.get("DST_C20_FAMILIES")  # debugging aid: restrict the workload
+
     def pick_group():
-        # the hand-written families (conversions, lazy conversions, discriminators, generics, …) and
-        # the generated class graphs get half of the runs each
-        if generated and rng.random() < 0.5:
+        if only:
+            return rng.choice(sorted(set(only.split(",")) & set(groups)) or static)
+        # the hand-written families (conversions, lazy conversions, discriminators, generics, …) get
+        # 70 % of the runs, the generated class graphs 30 %
+        if generated and rng.random() < 0.3:
             return rng.choice(generated)
         return rng.choice(static)
 
